@@ -28,7 +28,7 @@ GOENV = dict(os.environ, GOFLAGS="-mod=mod", GOPROXY="off", GOSUMDB="off", GOTOO
 # property -> (Lean property modules, harness subcommand present?)
 PROPS = {f"C{i:02d}": {"modules": [f"IclModel.Props.C{i:02d}"]} for i in range(1, 21)}
 # properties whose statement is assembled from the theorems of other property files
-PROPS["C01"]["modules"] += ["IclModel.Props.C02", "IclModel.Props.C03"]
+PROPS["C01"]["modules"] += ["IclModel.Props.C01Rec", "IclModel.Props.C02", "IclModel.Props.C03"]
 
 
 def sh(cmd, cwd=None, env=None, timeout=None):
